@@ -188,7 +188,7 @@ func init() {
 		"unspec": {jt: "str", canon: "UNSPECIFIED", i64: 0, good: true, zero: true, val: true}, "red": {jt: "str", canon: "RED", i64: 1, good: true, val: true}, "green": {jt: "str", canon: "GREEN", i64: 2, good: true, val: true},
 		// an option whose name ENDS in the name of an earlier option (INFRARED / RED)
 		"infra": {jt: "str", canon: "INFRARED", i64: 3, good: true, val: true},
-		"nope": wxJunk("str", "NOPE"), "pnope": wxJunk("str", "COLOR_NOPE"), "lower": wxJunk("str", "red"),
+		"nope":  wxJunk("str", "NOPE"), "pnope": wxJunk("str", "COLOR_NOPE"), "lower": wxJunk("str", "red"),
 		// unknown names made of the prefix, something else, and the name of an option at the end (or twice the prefix)
 		"ptail": wxJunk("str", "COLOR_NOT_RED"), "pdouble": wxJunk("str", "COLOR_COLOR_RED"), "ptailzero": wxJunk("str", "COLOR_RED_UNSPECIFIED"),
 		"tailonly": wxJunk("str", "NOT_RED"),
